@@ -1,8 +1,11 @@
 (* C01 — basic facts: the quota map, ancestor chains, sums over children, the invariant. *)
 From Coq Require Import List ZArith Bool Lia Permutation.
-From Verif Require Import Lib.Vec2 C01.Model C01.Spec.
+From Verif Require Import Lib.VecN C01.Model C01.Spec.
 Import ListNotations.
 Open Scope Z_scope.
+
+Section WithDim.
+Context {D : Dim}.
 
 (* ---------- find / names ---------- *)
 
@@ -329,3 +332,23 @@ Lemma fupd_same {A} (f : Z -> A) n v : fupd f n v n = v.
 Proof. unfold fupd. rewrite Z.eqb_refl. reflexivity. Qed.
 Lemma fupd_other {A} (f : Z -> A) n v m : m <> n -> fupd f n v m = f m.
 Proof. intros H. unfold fupd. apply Z.eqb_neq in H. rewrite H. reflexivity. Qed.
+
+(* zero figures (computed by [cbn] when vectors were pairs) *)
+Lemma nonneg_r0 : nonneg_r r0 = true.
+Proof. apply nonneg_r_iff. cbn [r0 r_req r_creq r_sreq r_np r_snp]. repeat split; apply vnonneg_zero. Qed.
+Lemma nonneg_u0 : nonneg_u u0 = true.
+Proof. apply nonneg_u_iff. cbn [u0 u_used u_sused u_np u_snp]. repeat split; apply vnonneg_zero. Qed.
+Lemma vmin_zero_l m : vnonneg m -> vmin vzero m = vzero.
+Proof. vlia. Qed.
+Lemma vmin_zero_zero : vmin vzero vzero = vzero.
+Proof. vlia. Qed.
+Lemma vmax_zero_zero : vmax vzero vzero = vzero.
+Proof. vlia. Qed.
+Lemma vsub_zero_zero : vsub vzero vzero = vzero.
+Proof. vlia. Qed.
+Lemma vclamp_zero : vclamp vzero = vzero.
+Proof. vlia. Qed.
+Lemma veqb_zero_zero : veqb vzero vzero = true.
+Proof. apply veqb_refl. Qed.
+
+End WithDim.
